@@ -6,7 +6,7 @@
    c05-main   stream                       -> [1] | [0; pc]       entry-point analysis only (calls summarised)
    c05-ann    stream                       -> per pc: reachable?, #frames, captures, auto-escapes, operand slots
    c05-stats  stream                       -> [#recursive loops; #call sites; #region analyses]
-   c05-trace  stream  nobs (pc stk frames caps aes)*   -> [1; steps] | [0; index; reason; pc; observed pc] (C05/Trace.v)
+   c05-trace  stream  ntraces trace..  with trace := nobs (pc stk frames caps aes)..   -> [1; observations] | [0; trace; index; reason; pc; observed pc] (C05/Trace.v)
    c05-rec    template of the recursive-loop family + trees   -> expected output / expected failure (C05/RecLoop.v) *)
 From Coq Require Import String.
 From MJ Require Import Common.Base C05.Model C05.Trace C05.RecLoop.
@@ -104,15 +104,28 @@ Definition stats (inp : list Z) : list Z :=
   | None => [9]
   end.
 
-Fixpoint dec_obs (n : nat) (l : list Z) : list obs :=
+Fixpoint dec_obs (n : nat) (l : list Z) : list obs * list Z :=
   match n, l with
-  | S n, pc :: k :: f :: c :: a :: r => mkObs (Z.to_nat pc) (Z.to_nat k) (Z.to_nat f) (Z.to_nat c) (Z.to_nat a) :: dec_obs n r
-  | _, _ => []
+  | S n, pc :: k :: f :: c :: a :: r =>
+      let '(os, rest) := dec_obs n r in (mkObs (Z.to_nat pc) (Z.to_nat k) (Z.to_nat f) (Z.to_nat c) (Z.to_nat a) :: os, rest)
+  | _, _ => ([], l)
+  end.
+
+(* all activations that ran on one stream during one render: the first that does not replay is reported *)
+Fixpoint traces (fuel : nat) (C : list instr) (entries : list (nat * shape)) (k : Z) (total : Z) (l : list Z) : list Z :=
+  match fuel, l with
+  | S f, n :: r =>
+      let '(os, rest) := dec_obs (Z.to_nat n) r in
+      match replay_act C entries os with
+      | 1 :: _ => traces f C entries (k + 1) (total + n) rest
+      | bad => 0 :: k :: tl bad
+      end
+  | _, _ => [1; total]
   end.
 
 Definition trace (inp : list Z) : list Z :=
   match dec_stream inp with
-  | Some (entries, C, n :: rest) => replay_act C entries (dec_obs (Z.to_nat n) rest)
+  | Some (entries, C, n :: rest) => traces (Z.to_nat n) C entries 0 0 rest
   | _ => [9]
   end.
 
